@@ -444,6 +444,8 @@ def c02(ctx, rep):
     _gate_v6(m, rep, "C02")  # an image that lands in a block the gate skips is never undone
     from .checks_pipe import import_clauses
     from . import checks_rx as _rx
+    from .checks_pipe import c19 as _c19
+    import_clauses(ctx, rep, "C02", "C19", _c19, ("C19.binding", "C19.options-not-rewritten"))  # "the same salt and options": what the user gave is what both runs use (salt="" is a salt)
     import_clauses(ctx, rep, "C02", "C06", _rx.c06, ("C06.ipv6-body", "C06.ipv6-hex-", "C06.ipv4-body", "C06.ipv4-complete", "C06.ipv4-exact"))  # undo on files finds every image again only if every address text is matched
     independent_wiring(ctx, rep, "C02", only=("anonymizer4", "anonymizer6"))
 
